@@ -59,14 +59,6 @@ impl PD {
             _ => 0,
         }
     }
-    pub fn count(&self) -> usize {
-        1 + match self {
-            PD::Constr { fields, .. } => fields.iter().map(|f| f.count()).sum(),
-            PD::Array { items, .. } => items.iter().map(|f| f.count()).sum(),
-            PD::Map { kvs, .. } => kvs.iter().map(|(k, v)| k.count() + v.count()).sum(),
-            _ => 0,
-        }
-    }
     pub fn max_bytes_len(&self) -> usize {
         match self {
             PD::Constr { fields, .. } => fields.iter().map(|f| f.max_bytes_len()).max().unwrap_or(0),
@@ -76,14 +68,6 @@ impl PD {
             }
             PD::Int { .. } => 0,
             PD::BigU(b) | PD::BigN(b) | PD::Bytes(b) => b.len(),
-        }
-    }
-    pub fn has_indef(&self) -> bool {
-        match self {
-            PD::Constr { indef, fields, .. } => *indef || fields.iter().any(|f| f.has_indef()),
-            PD::Array { indef, items } => *indef || items.iter().any(|f| f.has_indef()),
-            PD::Map { indef, kvs } => *indef || kvs.iter().any(|(k, v)| k.has_indef() || v.has_indef()),
-            _ => false,
         }
     }
     /// classes seen in the tree (for generator statistics)
